@@ -52,6 +52,20 @@ CHECKS = {
         "Trusted: upstream goldens, oracles/uplc_ref step counting and exmem.py. Limit: for builtin x variant pairs without a golden, the mapping from the flat parameter vector to coefficients is not independently decided; V2 budget goldens need the Vasil-era vector which the repository does not ship.",
         "DESIGN.md §3 C05",
     ),
+    "C09": (
+        "exploration",
+        "runtime monitoring: byte-for-byte comparison of build outputs across recorded build histories (processes, in-process rebuilds with fresh hash seeds, thread counts, file-discovery orders on tmpfs, generator re-use and entry orders) + reset invariant at hook H4",
+        "Generated multi-module projects and the acceptance projects with validators are built through the real Project in separate processes, repeatedly in one process, with 1/2/16 rayon workers, from tmpfs copies whose files were created in sorted/reversed/shuffled order; the blueprint text must be identical. Modules are compiled with a fresh generator per entry and with one re-used generator in four entry orders; every program must be identical, and after every generate the generator's per-program state (hook H4) must equal a brand-new generator's.",
+        "Trusted: sha256/text comparison. The compiler version string embedded in the blueprint is the same within a run.",
+        "DESIGN.md §3 C09",
+    ),
+    "C17": (
+        "exploration",
+        "runtime monitoring: structural Rc-graph audit at hook H5 right before the parallel section + schedule differential over rayon thread counts and repetitions",
+        "For generated projects built to provoke sharing (many unit/property tests over the same list/pair/nested/ADT constants, generic hoisted functions and types) and the dependency-free acceptance projects: at hook H5 every Test's Rc graph is walked (addresses, strong counts); no allocation may be reachable from two tests, every strong count must equal the in-degree inside its own test, no assertion may stay on a unit test. The FinishedTests event (verdicts, budgets, iterations, labels, counterexamples, order within each module) under 2, 4, 16 workers and repeated runs at 16 must equal the single-worker run.",
+        "Trusted: the auditor in harness/src/bin/project-run.rs. `type_info` of fuzzers is exempt (never touched on the worker). Module order in the raw event follows a HashMap and differs per process regardless of threads; results are compared grouped by module, as every reporter shows them. The ThreadSanitizer lane is not part of the registered commands (see DESIGN.md).",
+        "DESIGN.md §3 C17",
+    ),
     "C10": (
         "exploration",
         "runtime monitoring / sanitizer build: overflow-checking + debug-assertion build with catch_unwind and subprocess shards (abort attribution), plain-release twin build in the thorough tier, hostile term and constant-folding workloads, termination on logical budgets",
